@@ -305,3 +305,49 @@ def points_operations(S):
     tt = tgt.f["_t"].val
     S.forall("assignment-changes-only-the-addressed-row", tgt.f["_t"], lambda q: zreal(tt.at(q)) == z3.If(zint(q[0][0]) == 0, zreal(newrow.f["_t"].val.at([(), q[1]])), zreal(A.val.at(q))))
     S.ensure("assignment-keeps-space", keys(S.getattr(tgt, "space")) == ["x"])
+
+
+@scenario("C12", [P + ".coordinates", P + ".to", P + ".__setitem__", P + ".from_coordinates", P + ".as_tensor", P + ".__getitem__"], configs=["x1y2t1"], bounded=BOUND + "; one Points object observed through a history of reads and updates")
+def coordinates_follow_the_data_through_updates(S):
+    """history on ONE Points object: coordinates read, dtype conversion with .to (torch may hand back the same tensor
+    or a converted copy: both explored), rows of one variable assigned, coordinates read again, ...  After every step
+    coordinates[v] is the column block of the CURRENT data, as_tensor / name selection agree with it, and
+    from_coordinates(p.coordinates) == p"""
+    I = S.I
+    nd = [("x", 1), ("y", 2), ("t", 1)]
+    off = offsets(nd)
+    N = S.int("N", 2)
+    p0, data0, sp = mk_points(S, nd, N, "D")
+    p = S.new(P, Tensor(data0.val), sp)  # its own storage: the object is updated in place below
+
+    def check(tag, want):
+        co = S.getattr(p, "coordinates")
+        at = S.getattr(p, "as_tensor").val
+        S.forall(f"{tag}:as_tensor-is-the-current-data", Tensor(at), lambda q: zreal(at.at(q)) == want(q[0], q[1][0]))
+        for nm, (o, d) in off.items():
+            t = co[nm].val
+            ok = t.rank == 2 and t.shape[1].concrete() == d and t.shape[0].size_term() == zint(N)
+            S.ensure(f"{tag}:coordinates-{nm}-shape", ok)
+            if ok:
+                S.forall(f"{tag}:coordinates-{nm}-is-the-column-block-of-the-current-data", co[nm], lambda q, o=o, d=d, t=t: zreal(t.at(q)) == want(q[0], o + (q[1][0] if d != 1 else 0)))
+        sel = tensor_of(I.getitem(p, (slice(None), ["y"])))
+        S.forall(f"{tag}:selection-by-name-agrees", Tensor(sel), lambda q: zreal(sel.at(q)) == want(q[0], 1 + q[1][0]))
+        back = S.call(S.getattr(S.find(P), "from_coordinates"), dict(co))
+        S.ensure(f"{tag}:roundtrip-equal", zbool_(I, I.compare(ast.Eq(), back, p)))
+
+    orig = lambda r, c: zreal(data0.val.at([r, (c,)]))
+    check("1-fresh", orig)
+    S.method(p, "to", I.repo.externals["torch"].get("float64"))
+    check("2-after-to-dtype", orig)
+    new_y = S.new(P, S.tensor("NY", [1, 2]), S.new(RN, "y", 2))
+    I.setitem(p, (slice(0, 1), ["y"]), new_y)
+    ny = new_y.f["_t"].val
+
+    def upd(r, c):
+        r0 = zint(r[0])
+        cc = zint(c)
+        return z3.If(z3.And(r0 == 0, cc >= 1, cc <= 2), z3.If(cc == 1, zreal(ny.at([(), (0,)])), zreal(ny.at([(), (1,)]))), orig(r, c))
+
+    check("3-after-assigning-y-of-row-0", upd)
+    S.method(p, "to", "cpu")
+    check("4-after-to-device", upd)
